@@ -120,8 +120,8 @@ def place_points(rng, centres, n):
 
 def gen_cases(tier, seed):
     rng = random.Random(1000003 * seed + 31)
-    cases = twoindex.gen_cases(tier, seed, salt=3, lmax_block=5, lmax_basis=3, nb_quick=12, nb_thorough=80,
-                               block_reps_thorough=2)
+    cases = twoindex.gen_cases(tier, seed, salt=3, lmax_block=5, lmax_basis=3, nb_quick=24, nb_thorough=150,
+                               block_reps_thorough=2, kcap_big=2)
     for i, c in enumerate(cases):
         if c["kind"] == "block":
             big = c["a"]["l"] + c["b"]["l"] >= 7
